@@ -143,7 +143,7 @@ package ast
 // ---- C06/C01: the local name of a task is its name without the namespace prefix ------------------------
 //@ func (*Task).LocalName
 //@   pure
-//@   ensures result == strTrimPrefix(strTrimPrefix(t.Task, t.Namespace), ":")                       [C06,C01]
+//@   ensures result == strTrimPrefix(strTrimPrefix(t.Task, t.Namespace), ":")                       [C06,C01,C07]
 
 // ---- C08 / C09 / C10: merging an included Taskfile's tasks (the body of the loop in Tasks.Merge) ----------
 // dupFree: t1.Get(taskName) was asked and said "absent"; excluded: the exclude list contains the name;
@@ -199,10 +199,13 @@ package ast
 //@   pure allocates
 //@   nilable vars
 //@   result fnspec omIter
+// Every variable taken over from an advanced import is stamped with the directory of THAT include statement
+// (whatever was recorded on it before), so that which parent was merged first can make no difference.
 //@ func (*Vars).Merge
-//@   trusted
-//@   modifies om_has, om_val, om_len, om_key
+//@   modifies github.com/go-task/task/v3/taskfile/ast.Var.Dir, om_has, om_val, om_len, om_key
 //@   nilable vars other include
+//@   site (*OrderedMap).Set#1 requires arg0 == vars.om                                                       [C08,C10]
+//@   site (*OrderedMap).Set#1 requires include != nil && include.AdvancedImport ==> arg2.Dir == include.Dir  [C08,C09,C10]
 
 // ---- C15 / C16: in a task name only '*' is special; every other character is matched literally ------------
 // The pattern handed to the regexp compiler is built from the name's '*'-separated segments, each of them
